@@ -77,6 +77,7 @@ double from_bits(uint64_t b) { double d; memcpy(&d, &b, 8); return d; }
 
 bool all_numbers(const RV& v) { if (v.k != RV::Arr) return false; for (auto& e : v.arr) if (e.k != RV::Num) return false; return true; }
 
+static bool has_array(const RV& v) { if (v.k == RV::Arr) return !v.arr.empty(); if (v.k == RV::Obj) for (auto& e : v.obj) if (has_array(e.second)) return true; return false; }
 struct XPrint : Engine {
     Mode mode = M_ROUND; GuardMap gm; bool verbose = false; std::string curdesc;
     const char* name() override { return "x_print"; }
@@ -272,6 +273,8 @@ struct XPrint : Engine {
                 cJSON* tc = build_tree_cs(rv); std::string a = take(LIB(cJSON_PrintUnformatted(tc))), b = take(LIB(cJSON_Print(tc))); ctr().calls += 2;
                 if (a != base[0] || b != base[1]) V("construction-route-differs", "tree built with constant keys prints differently");
                 LIBV(cJSON_Delete(tc));
+                if (has_array(rv)) { cJSON* tn = build_tree_named(rv); std::string a2 = take(LIB(cJSON_PrintUnformatted(tn))), b2 = take(LIB(cJSON_Print(tn))); ctr().calls += 2;
+                    if (a2 != base[0] || b2 != base[1]) V("construction-route-differs", "tree whose array elements carry stale member names prints differently"); LIBV(cJSON_Delete(tn)); }
                 if (all_numbers(rv) && rv.arr.size() <= 64) {
                     std::vector<double> ds; ds.reserve(rv.arr.size() + 1); for (auto& e : rv.arr) ds.push_back(e.num);
                     cJSON* tb = LIB(cJSON_CreateDoubleArray(ds.data(), (int)ds.size())); std::string x = take(LIB(cJSON_PrintUnformatted(tb)));
